@@ -31,7 +31,7 @@ FEATS = dict(
     bases=["one", "two"],
     extras=["mc", "dem"],
     caps=1, extra_costs=1, wacc=1, window=1, takes=1,
-    sto_eff=1, sto_costs=1, sto_inflow=1, sto_levels=1, sto_two_nodes=1, sto_size0=1,
+    sto_eff=[1.0, 0.9, 1.25], sto_caps=1, sto_costs=1, sto_inflow=1, sto_levels=1, sto_two_nodes=1, sto_size0=1,
     tr_dir=1, tr_eff=1, tr_costs=1, tr_takes=1, mc_factors=1,
 )
 
